@@ -17,9 +17,11 @@
     - [excl_abandoned_promise root = false]: no position of non-null type in the plan fails
       (known finding "abandoned-promise", refuted below without it).
 
-    The theorems are partial-correctness statements: they speak about every run of the model that
-    returns ([= Done r], for every fuel); they do not claim that [run] returns.
-    NOT PROVED (full statement, stage B):
+    The order theorems are safety statements about EVERY run of the model — every scheduler
+    (fair or not), every fuel, whether the run returns ([Done r]), gets stuck because the idle
+    handler fulfils nothing ([Stuck s]) or exhausts its fuel ([OutOfFuel s]): [log_of] is the log
+    of the run so far.  They do not claim that a run returns.
+    NOT PROVED (liveness, stage B):
       Theorem C11_mutation_terminates : forall sigma fuel root,
         fair sigma -> count_async root <= fuel -> exists r, run sigma Mutation fuel root = Done r.
     Every generated case of the correspondence check is required to reach [Done] (a [Stuck] or
@@ -32,10 +34,9 @@ Import ListNotations.
 (** the property, strict form: for every mutation, every assignment of synchronous / asynchronous
     resolvers and every fulfilment schedule, in the global resolver log every event under k_i
     precedes every event under k_{i+1} *)
-Theorem C11_mutation_serial : forall sigma fuel root r,
+Theorem C11_mutation_serial : forall sigma fuel root,
   NoDup (map fst root) -> excl_abandoned_promise root = false ->
-  run sigma Mutation fuel root = Done r ->
-  Serial (map fst root) (r_events r).
+  Serial (map fst root) (log_of (run sigma Mutation fuel root)).
 Proof. exact mutation_serial. Qed.
 
 (** ... because when the wait for a root field returns, every promise created so far has been
@@ -48,10 +49,9 @@ Proof. exact mutation_no_promise_left. Qed.
 
 (** without the exclusion: no resolver belonging to an earlier root field starts after any event
     of a later root field; the only events that can come late are fulfilments of promises *)
-Theorem C11_mutation_serial_starts : forall sigma fuel root r,
+Theorem C11_mutation_serial_starts : forall sigma fuel root,
   NoDup (map fst root) ->
-  run sigma Mutation fuel root = Done r ->
-  SerialStarts (map fst root) (r_events r).
+  SerialStarts (map fst root) (log_of (run sigma Mutation fuel root)).
 Proof. exact mutation_serial_starts. Qed.
 
 (** the response lists the root fields in document order *)
